@@ -112,3 +112,6 @@ PROP = dict(
                  "`fnd`: the namespace `rest` is masked; accounts carry up to three tags out of eight, topics their normalised tags; the adapters' LIMIT on the number of results is not reached"],
     trusted=world.WORLD_TRUSTED,
 )
+
+from ..pin import add_pin
+PROP = add_pin(PROP)
